@@ -15,7 +15,6 @@
 //! and the maximum number of idle connections per host.
 
 use std::collections::HashMap;
-use std::collections::HashSet;
 use std::collections::VecDeque;
 use std::fmt;
 use std::ops::Deref;
@@ -193,7 +192,7 @@ where
                 rx,
                 connector,
                 Some(connection),
-                false,
+                None,
                 &inner.config,
             );
         }
@@ -201,7 +200,7 @@ where
         trace!("checkout interested in pooled connections");
         inner.waiting.entry(token).or_default().push_back(tx);
 
-        if inner.connecting.contains(&token) {
+        if inner.connecting.contains_key(&token) {
             trace!("connection in progress elsewhere, will wait");
             connector = None;
             Checkout::new(
@@ -210,15 +209,17 @@ where
                 rx,
                 connector,
                 None,
-                false,
+                None,
                 &inner.config,
             )
         } else {
-            if multiplex {
+            let marker = if multiplex {
                 // Only block new connection attempts if we can multiplex on this one.
                 trace!("checkout of multiplexed connection, other connections should wait");
-                inner.connecting.insert(token);
-            }
+                Some(inner.start_connecting(token))
+            } else {
+                None
+            };
             trace!("connecting to host");
             Checkout::new(
                 token,
@@ -226,12 +227,16 @@ where
                 rx,
                 connector,
                 None,
-                multiplex,
+                marker,
                 &inner.config,
             )
         }
     }
 }
+
+/// Identifies one connection attempt which placed a "connection in progress" marker.
+#[derive(Debug, Clone, Copy, PartialEq, Eq)]
+pub(in crate::client) struct AttemptId(u64);
 
 pub(in crate::client) struct PoolRef<C, B>
 where
@@ -327,7 +332,9 @@ where
 {
     config: Config,
 
-    connecting: HashSet<Token>,
+    /// Origins with a (multiplexed) connection attempt in progress, and which attempt that is.
+    connecting: HashMap<Token, AttemptId>,
+    attempts: u64,
     waiting: HashMap<Token, VecDeque<Sender<Pooled<C, B>>>>,
 
     idle: HashMap<Token, IdleConnections<C, B>>,
@@ -341,15 +348,30 @@ where
     fn new(config: Config) -> Self {
         Self {
             config,
-            connecting: HashSet::new(),
+            connecting: HashMap::new(),
+            attempts: 0,
             waiting: HashMap::new(),
             idle: HashMap::new(),
         }
     }
 
-    pub(in crate::client) fn cancel_connection(&mut self, token: Token) {
-        let existed = self.connecting.remove(&token);
+    /// Place the "connection in progress" marker for a new connection attempt.
+    fn start_connecting(&mut self, token: Token) -> AttemptId {
+        self.attempts += 1;
+        let attempt = AttemptId(self.attempts);
+        self.connecting.insert(token, attempt);
+        attempt
+    }
+
+    /// Remove the "connection in progress" marker placed by `attempt`, if it is still in place.
+    ///
+    /// The marker of an attempt is also removed when somebody else provides a connection which can
+    /// be shared. A later attempt may then have placed a marker of its own for the same token, and
+    /// that one is not ours to cancel.
+    pub(in crate::client) fn cancel_connection(&mut self, token: Token, attempt: AttemptId) {
+        let existed = self.connecting.get(&token) == Some(&attempt);
         if existed {
+            self.connecting.remove(&token);
             trace!("pending connection cancelled");
 
             // Checkouts which did not start their own connection attempt because this one was in
@@ -371,7 +393,7 @@ where
     /// New connection attempts will wait for this connection to complete the
     /// handshake and re-use it if possible.
     pub(in crate::client) fn connected_in_handshake(&mut self, token: Token) {
-        self.connecting.insert(token);
+        self.connecting.entry(token).or_insert(AttemptId(0));
     }
 }
 
